@@ -1011,7 +1011,7 @@ func ssaFieldIs(fa *ssa.FieldAddr, st, field string) bool {
 // ---------------------------------------------------------------- fertiliser table row
 
 func c10Dueng(p *Prog, r *Report) {
-	r.Rule("C10.R4", "fertiliser split: the table row is selected by equality of its first token with the event's fertiliser code, and the direct, ammonium, fast and slow organic parts are all stored to the event's own slot and are proportional to the applied quantity; the applied quantity carries the global fertilisation factor; fast and slow organic pools are (applied N − direct N after the loss) × one column each; six different columns; only the event's own slot is read", 13)
+	r.Rule("C10.R4", "fertiliser split: the table row is selected by equality of its first token with the event's fertiliser code, and the direct, ammonium, fast and slow organic parts are all stored to the event's own slot and are proportional to the applied quantity; the applied quantity carries the global fertilisation factor; fast and slow organic pools are (applied N − direct N after the loss) × one column each; six different columns; only the event's own slot is read; the factor is the configured percentage / 100", 14)
 	x := walked(p, "hermes.dueng")
 	if x == nil {
 		r.Ob("dueng", "-", false, "hermes.dueng not found")
@@ -1237,6 +1237,11 @@ func c10Dueng(p *Prog, r *Report) {
 	// (investigated and not armed: the pre-crop branch of the rotation reader calls dueng(SLFIND) while it stores code
 	// and quantity at SLFIND-1; slot 0's N parts are overwritten by the residue pseudo-event afterwards, so the
 	// inconsistency has no observable effect and is not a violation of this property)
+	// the global factor is the configured scenario percentage / 100, whatever its value (a scenario above 100 % is legitimate)
+	{
+		ok, pos, det := configFeeds(p, "DUNGSZEN", "Fertilization", 100)
+		r.Ob("factor-source", pos, ok, "the fertilisation factor is the configured percentage / 100, unconditionally and unclamped, and nothing else writes it: "+det)
+	}
 	// the applied quantity carries the global factor
 	in := walked(p, "hermes.Input")
 	if in != nil {
